@@ -78,7 +78,7 @@ struct NodeX {
   }
 };
 
-void one_case(Ctx &c) {
+void case_impl(Ctx &c, bool from_callback) {
   Cfg g; g.nodeid = (uint8_t)(1 + c.t.below(40));
   g.hbt = (uint16_t[]){0, 5, 10}[c.t.below(3)]; g.syncid = 0x80 | (c.t.coin() ? 0x40000000u : 0); g.cyc = 1000u * (1 + c.t.below(5));
   for (int i = 0; i < 2; i++) { g.hc_on[i] = c.t.coin(); g.hc_time[i] = g.hc_on[i] ? (uint16_t)(4 + c.t.below(8)) : 0; }
@@ -95,7 +95,17 @@ void one_case(Ctx &c) {
   bool changed_param = false, nonidle = false;
   for (auto &o : H) { VLOG(c, "history op %u (%u,%u,%u)", o.op, o.a, o.b, o.c); A.exec(o, true); if ((o.op >= 9 && o.op <= 12) || o.op == 23 || o.op == 24 || o.op == 13 || (o.op == 25 && o.a % 3 == 2)) changed_param = true; if (o.op == 19 || o.op == 20 || o.op == 16) nonidle = true; c.ops++; }
   A.s.clear_tx(); A.s.clear_ev();
-  A.s.rx(Frame::mk(0, 2, {(uint8_t)(reset_node ? 129 : 130), 0}));
+  // mode reset-from-callback: the application reacts to a lost heartbeat by resetting the node from inside CONmtHbConsEvent();
+  // the reset frame is the fall-back when no consumer times out within 300 ticks
+  bool fired = false;
+  if (from_callback) {
+    for (int n = 5; n <= 7; n++) A.s.rx(Frame::mk(0x700u + (uint32_t)n, 1, {5}));
+    A.s.hb_event_hook = [&](uint8_t) { if (fired) return; fired = true; CONmtReset(&A.s.node->Nmt, reset_node ? CO_RESET_NODE : CO_RESET_COM); };
+    for (int i = 0; i < 300 && !fired; i++) { A.s.clear_tx(); A.s.clear_ev(); A.s.step_tick(); }
+    A.s.hb_event_hook = nullptr;
+  }
+  if (!fired) A.s.rx(Frame::mk(0, 2, {(uint8_t)(reset_node ? 129 : 130), 0}));
+  c.cls(fired ? "reset-issued-from-the-heartbeat-event-callback" : "reset-by-nmt-command");
   long baseA = A.s.tick;
   std::vector<std::string> resetTrace = A.render(baseA);
   // the storage right after the reset is node B's initial storage
@@ -132,13 +142,17 @@ void one_case(Ctx &c) {
   if (changed_param) c.cls("history-changed-communication-parameters"); if (nonidle) c.cls("history-left-a-service-non-idle"); c.cls(reset_node ? "reset-node" : "reset-communication");
 }
 
+void one_case(Ctx &c) { case_impl(c, false); }
+void callback_case(Ctx &c) { case_impl(c, true); }
+
 Registrar reg(Prop{
     "C20",
     "Cases: a node with heartbeat producer, SYNC consumer/producer, two heartbeat consumer entries, two TPDOs (event/inhibit/sync types), an RPDO, an SDO client, LSS and EMCY (generated configuration); a history H of 0..60 (120) ops from 26 kinds (ticks, heartbeat/SYNC/RPDO/LSS/foreign frames, SDO write to the SDO client's server node id 1280h:3, SDO writes to 1017h/1005h/1006h/1016h/18xxh:1/18xxh:5, NMT start/stop, triggers, object writes, EMCY set/clear, SDO transfers left open in three protocol states, client requests left busy, an optional cyclic application timer), "
-    "then NMT reset communication (or reset node), then a probe sequence P of 8..60 (90) ops of the same kinds (conforming traffic only). "
+    "then NMT reset communication (or reset node; in mode reset-from-callback the application issues it with CONmtReset() from inside the heartbeat-consumer event callback when a monitored node falls silent), then a probe sequence P of 8..60 (90) ops of the same kinds (conforming traffic only). "
     "Oracle (metamorphic): node B is a fresh node whose object storage equals A's storage right after the reset; after init+start it executes the same P; per probe step the sorted list of transmitted frames (with ticks relative to reset/start) and application callbacks (mode changes, heartbeat events/changes, frames handed to the application, client completions, PDO callbacks) must be identical; timer-pool occupancy of A equals B's plus live application timers right after the reset and after P. "
     "Non-trivial: H changed at least one communication parameter or NMT state, or left a service non-idle (open SDO transfer, busy client, active emergency). Distinct = distinct decoded choice sequence.",
-    {Mode{"random", one_case, false, 1000000, 12000000, 0, 0, 500, 900}},
+    {Mode{"random", one_case, false, 750000, 9000000, 0, 0, 500, 900},
+     Mode{"reset-from-callback", callback_case, false, 250000, 3000000, 0, 0, 500, 900}},
     {"dictionaries without parameter groups (their reload differs by design) and without 1003h (the history survives a reset but not a fresh initialisation, by design)", "the order of events inside one probe step is not compared (sorted lists)", "application timer callbacks are not part of the trace"}});
 
 }  // namespace
